@@ -65,7 +65,10 @@ CHECKS = {
         "text": "Four rule families over the six decrypt functions and check_tag: (GUARD) finite-class execution on clen: 0..7 return negative before any load/store/call; (MUST) for every class >= 8 "
                 "every path returns exactly the value of the single check_tag call; (ARGS) size = 8, tag1 = the 8-byte local filled by generate_tag on every path, tag2 = c + clen - 8 proven by affine "
                 "cursor/length lock-step (SCEV recurrences + residue reasoning for the 1/2/3-byte tails); (CMP) in check_tag the compare loop's SCEV coverage is [0,size) for both tags, the accumulator "
-                "update equals accum | (tag1[i]^tag2[i]) at bit granularity, its range is [0,255] by a known-bits fixpoint, and the fold is evaluated exhaustively on all 256 values: 0 -> 0, rest -> -1.",
+                "update equals accum | (tag1[i]^tag2[i]) at bit granularity, its range is [0,255] by a known-bits fixpoint, and the fold is evaluated exhaustively on all 256 values: 0 -> 0, rest -> -1. "
+                "(SENS) every ciphertext bit of a segment reaches the recovered plaintext bit and the authenticated state; (ABSORB) the shared absorb function leaves a state that is an injective "
+                "function of the bytes of every segment (rank of the GF(2)-linear map the bytes enter by; otherwise a concrete pair of inputs absorbed alike is the refutation) - the premise of "
+                "'modified associated data is rejected'.",
         "note": "Decides that the verdict is 0 exactly when all 64 bits of the computed and received tag agree, for every path; that the computed tag depends on every input bit is a property of the "
                 "cipher (structure under C02), and the 2^-64 bound is not a code property. N0 (source-shaped) IR of clang 14 only.",
         "technique": "finite-class abstract execution + affine cursor/length analysis (SCEV) + bit-provenance and known-bits abstract interpretation",
@@ -118,7 +121,9 @@ CHECKS = {
                 "plaintext, clen-8); lock-step/tag position/load-before-store (the tag bytes are copied before the first plaintext store), and C03's guard / must-pass / argument rules on "
                 "the three SIV decrypt functions."
                 " R-C08-SETUPFN (setup is a function of the nonce bytes on every path class and every nonce bit enters the state), R-C08-NOSTATE (no writable global state reachable), R-C08-SMALL "
-                "(every length 0..100 as straight paths: i/o and memory discipline, refusal of inputs shorter than a tag; relationally for every length 0..80: decrypt's two passes are encrypt's two passes on the same inputs, plaintext recovered bit for bit, regenerated tag = stored tag).",
+                "(every length 0..100 as straight paths: i/o and memory discipline, refusal of inputs shorter than a tag; relationally for every length 0..80: decrypt's two passes are encrypt's two passes on the same inputs, plaintext recovered bit for bit, regenerated tag = stored tag). "
+                "R-C08-ABSORB: the shared absorb function (associated data, and the plaintext of the authentication pass) is injective in the bytes of every segment - a loss of input bits made alike "
+                "in both directions keeps the round trip but lets modified bodies or associated data through.",
         "note": "Values not computed; tag sensitivity is a cipher property; check_tag itself is decided under C03/C04. Consistent deviations from the construction are C09's.",
         "technique": "relational symbolic path summaries (encrypt vs decrypt) in a GF(2) term domain; finite-class execution for the length guard",
     },
